@@ -21,7 +21,7 @@ def is_ctrl(v, name):
     return Or(v == L.clsobj(name), L.exc_pred(name)(v))
 
 
-@contract(CQ + "call_mapper", props=("C05", "C17"))
+@contract(CQ + "call_mapper", props=("C05", "C12", "C14", "C17"))
 def _(c):
     c.param("fn", "none", "cb").param("node", "node").param("data", "dref", "val")
     c.families = ("plain",)
